@@ -112,7 +112,7 @@ pub fn exec(sim: &mut Sim, ev: &str, a: &Value) -> Result<(), String> {
                 return Err("MapPre not enabled".into());
             }
         }
-        "Quiesce" | "Init" => {}
+        "Quiesce" | "AtRest" | "Init" => {}
         _ => return Err(format!("unknown action {ev}")),
     }
     Ok(())
@@ -186,6 +186,9 @@ impl<W: Write> Trace<W> {
         }
         self.step(sim, "SrvFrame", json!({"tick": false, "dt": 0}));
         self.step(sim, "Quiesce", json!({}));
+        // one more tick with nothing changed and everything acknowledged: the server must be silent
+        self.step(sim, "SrvFrame", json!({"tick": true, "dt": 0}));
+        self.step(sim, "AtRest", json!({}));
     }
 }
 
@@ -216,6 +219,8 @@ pub fn random_run<W: Write>(tr: &mut Trace<W>, cfg: Cfg, prof: &Profile, seed: u
     tr.start_run(&sim, run, json!({"seed": seed}));
     let ents: Vec<String> = sim.cfg.ents.clone();
     let clients: Vec<String> = sim.cfg.clients.clone();
+    // warm-up: the very first server frame replicates (tick 0) whether or not the tick changed
+    tr.step(&mut sim, "SrvFrame", json!({"tick": false, "dt": 0}));
     for c in &clients {
         tr.step(&mut sim, "Connect", json!({"c": c}));
     }
